@@ -23,6 +23,11 @@ pub fn prim(s: &str) -> PrimitiveType {
     }
 }
 
+thread_local! {
+    /// named types created by `mktype` steps of a graph script ({"ref": name} refers to them)
+    pub static NAMED: std::cell::RefCell<std::collections::HashMap<String, ValueType>> = Default::default();
+}
+
 fn opt_vt(t: &mut Types, v: &Value) -> Option<ValueType> {
     if v.is_null() {
         None
@@ -36,6 +41,7 @@ pub fn value_type(t: &mut Types, v: &Value) -> ValueType {
     let (k, x) = o.iter().next().expect("one key");
     let d = match k.as_str() {
         "prim" => return ValueType::Primitive(prim(x.as_str().unwrap())),
+        "ref" => return NAMED.with(|n| *n.borrow().get(x.as_str().unwrap()).expect("unknown named type")),
         "tuple" => DefinedType::Tuple(x.as_array().unwrap().iter().map(|e| value_type(t, e)).collect()),
         "list" => DefinedType::List(value_type(t, x)),
         "fixed" => {
